@@ -424,7 +424,14 @@ def _generate_ctls_without_code_map(snapshot, start, end, config, rst_handler):
                     if t_end < end:
                         ctls[t_end] = 'b'
                 if t_end < end:
-                    ctls[t_end] = 'c'
+                    # Resume the code at the next boundary of the block's own
+                    # instructions, so that its last instruction still ends
+                    # where the block ends
+                    c_start = min((a for a, *_ in decode(snapshot, start, end, rst_handler) if a >= t_end), default=end)
+                    if t_end < c_start:
+                        ctls[t_end] = 'b'
+                    if c_start < end:
+                        ctls[c_start] = 'c'
 
     return ctls
 
